@@ -4,15 +4,21 @@
 # breaks (meta.json: breaks_property) exit 1 with a VIOLATION line; every seeded-harmless/<name>/patch.diff
 # (a behaviour-preserving refactoring) and every seeded-neutral/<name>/patch.diff (a behaviour change no property
 # speaks about) must leave the checks of its package's properties at exit 0.
-# Uses tools/mutcheck.sh (applies to /repo, restores it and the evidence files). Do not run while a `vp run`
-# sweep is active: those use /repo itself.
-cd /verif || exit 2
+# Uses tools/mutcheck.sh (applies to the library tree, restores it and the evidence files). Do not run while a
+# `vp run` sweep is active: those use /repo itself.
+#   REGRESS_SHARD=i/n  only every n-th corpus entry, starting at i (0-based) — used by tools/regress_parallel.sh
+#   VERIF_HOME / VERIF_REPO  an isolated copy made by tools/isolate.sh (default /verif and /repo)
+V="${VERIF_HOME:-/verif}"
+cd "$V" || exit 2
 filter="${1:-}"
-pass=0; fail=0
+si=0; sn=1
+if [ -n "${REGRESS_SHARD:-}" ]; then si=${REGRESS_SHARD%%/*}; sn=${REGRESS_SHARD##*/}; fi
+pass=0; fail=0; k=0
 for d in seeded/*/; do
   n=$(basename "$d"); [[ -n "$filter" && "$n" != *"$filter"* ]] && continue
+  k=$((k+1)); [ $((k % sn)) -ne $si ] && continue
   prop=$(python3 -c "import json;print(json.load(open('$d/meta.json'))['breaks_property'])")
-  out=$(tools/mutcheck.sh "/verif/$d/patch.diff" "$prop" 2>&1)
+  out=$(tools/mutcheck.sh "$V/$d/patch.diff" "$prop" 2>&1)
   if echo "$out" | grep -q "^$prop exit=1 .*VIOLATION property=$prop"; then
     kind="with-input"; echo "$out" | grep -q "no-failing-input-found" && kind="no-failing-input-found"
     echo "CAUGHT   $n ($prop, $kind)"; pass=$((pass+1))
@@ -23,8 +29,9 @@ done
 declare -A PK=( [date]="C01 C07 C09 C11 C15" [roman]="C02 C10" [sem]="C03 C06 C14" [size]="C04 C08 C12 C13" [uu]="C05 C19" [test]="C20" [internal]="C01 C05 C16" )
 for d in seeded-harmless/*/ seeded-neutral/*/; do
   n=$(basename "$d"); [[ -n "$filter" && "$n" != *"$filter"* ]] && continue
+  k=$((k+1)); [ $((k % sn)) -ne $si ] && continue
   pkg=${n%%-*}
-  out=$(tools/mutcheck.sh "/verif/$d/patch.diff" ${PK[$pkg]} C16 C17 C18 2>&1)
+  out=$(tools/mutcheck.sh "$V/$d/patch.diff" ${PK[$pkg]} C16 C17 C18 2>&1)
   if echo "$out" | grep -q "exit=1"; then
     echo "ALARM    $n: $(echo "$out" | grep 'exit=1' | cut -c1-120 | tr '\n' ';')"; fail=$((fail+1))
   else
